@@ -8,7 +8,7 @@ package ice
 // that the Lean model (IceModel.AgentCore / Sys2 via Driver/AgentDrv.lean) must reproduce exactly.
 //
 // ops (tokens after "agent"):
-//   new <cfgA> <cfgB|->        cfg = k=v,...: lite max disc fail ka ci hw sw pw rw (ms) renom ucp blk=a+b tb u p
+//   new <cfgA> <cfgB|->        cfg = k=v,...: lite max disc fail ka ci hw sw pw rw (ms) renom ucp blk=a+b tb u p tcp (1 = tcp4/tcp6 among the agent's network types)
 //   addlocal  <A|B> <ty> <net> <addr> <prio> <rel|->      addremote <A|B> <ty> <net> <addr> <prio> <rel|-> [form]
 //     form (default 0): spelling of the address literal the remote candidate is signalled with: 0 = canonical,
 //     1 = another literal of the same address (udp4: IPv4-mapped "::ffff:10.0.0.3"; udp6: expanded "fd00:0:0:0:0:0:0:3").
@@ -17,7 +17,11 @@ package ice
 //   inject <A|B> <localAddr> <src> <msgspec>   data <A|B> <localAddr> <src> <len> <stunlike>
 //   write <A|B> <len> <stunlike>   writepair <A|B> <id> <len> <stunlike>   read <A|B> [cap]   (cap = size of the caller's buffer; absent = receiveMTU)
 //   renom <A|B> <laddr> <ridx> <value>   restart <A|B> <u> <p>   close <A|B>   nat <src> <mapped>   block <src> <dst>   mark <label>   end
-// address id k: ip id k/16, port 5000+k%16; net 0 = udp4 (10.0.0.<ip+1>), 1 = udp6 (fd00::<ip+1>).
+// address id k: ip id k/16, port 5000+k%16; net 0 = udp4 (10.0.0.<ip+1>), 1 = udp6 (fd00::<ip+1>), 2 = tcp4, 3 = tcp6.
+// Address ids name TRANSPORT addresses: 1048576+k is the TCP transport address with the ip and port of k (a TCP
+// candidate's id always carries the offset: the ops' ids are reduced mod 1048576 and re-tagged by the network).
+// addlocal ... <rel|-> [tt]   addremote ... <rel|-> [form [tt]]   tt = tcptype a|p|s|- ; the digest marks it ^a ^p ^s.
+// addremote goes through the PUBLIC AddRemoteCandidate (which ignores tcptype active).
 // credentials are tokens (u, p); the real strings are tok+"_ufrag" / tok+"_password_0123456789abcd"; "_" = empty.
 
 import (
@@ -45,10 +49,15 @@ func init() { vComponents["agent"] = &vComp{genR: vAgentGen, exec: vAgentExec} }
 
 // ---- addresses and credentials ----
 
+// Address ids name TRANSPORT addresses: ids below vTCPBase are UDP (ip id k/16, port 5000+k%16), the id
+// vTCPBase+k is the TCP transport address with the same ip and port.  net 0/1 = udp4/udp6, 2/3 = tcp4/tcp6.
+const vTCPBase = 1 << 20
+
 func vAddr(net0 int, k int) *net.UDPAddr {
+	k %= vTCPBase
 	ip := k / 16
 	port := 5000 + k%16
-	if net0 == 1 {
+	if net0&1 == 1 {
 		return &net.UDPAddr{IP: net.ParseIP(fmt.Sprintf("fd00::%x", ip+1)), Port: port}
 	}
 	return &net.UDPAddr{IP: net.IPv4(10, 0, byte(ip/250), byte(ip%250+1)), Port: port}
@@ -68,6 +77,81 @@ func vAddrID(ap netip.AddrPort) int {
 }
 
 func vUDPAddrID(u *net.UDPAddr) int { return vAddrID(u.AddrPort()) }
+
+// vNetAddr: the net.Addr of address id k on network net0 (*net.TCPAddr for tcp4/tcp6).
+func vNetAddr(net0, k int) net.Addr {
+	u := vAddr(net0, k)
+	if net0 >= 2 {
+		return &net.TCPAddr{IP: u.IP, Port: u.Port}
+	}
+	return u
+}
+
+// vNetAddrID: the address id (transport included) of a hub address.
+func vNetAddrID(a net.Addr) int {
+	switch x := a.(type) {
+	case *net.TCPAddr:
+		return vTCPBase + vAddrID(x.AddrPort())
+	case *net.UDPAddr:
+		return vAddrID(x.AddrPort())
+	}
+	return -1
+}
+
+// vNetOf: network index 0..3 of a hub address.
+func vNetOf(a net.Addr) int {
+	n := 0
+	var ip net.IP
+	switch x := a.(type) {
+	case *net.TCPAddr:
+		n, ip = 2, x.IP
+	case *net.UDPAddr:
+		ip = x.IP
+	}
+	if ip.To4() == nil {
+		n++
+	}
+	return n
+}
+
+func vIsTCP(a net.Addr) bool { _, ok := a.(*net.TCPAddr); return ok }
+
+func vKey(a net.Addr) string { return a.Network() + "/" + a.String() }
+
+// vCandID: the address id of a candidate (transport included).
+func vCandID(c Candidate) int {
+	id := vAddrID(c.addrPort())
+	if c.NetworkType().IsTCP() {
+		id += vTCPBase
+	}
+	return id
+}
+
+func vTT(tok string) TCPType {
+	switch tok {
+	case "a":
+		return TCPTypeActive
+	case "p":
+		return TCPTypePassive
+	case "s":
+		return TCPTypeSimultaneousOpen
+	}
+	return TCPTypeUnspecified
+}
+
+func vTTMark(c Candidate) string {
+	switch c.TCPType() {
+	case TCPTypeActive:
+		return "^a"
+	case TCPTypePassive:
+		return "^p"
+	case TCPTypeSimultaneousOpen:
+		return "^s"
+	}
+	return ""
+}
+
+var vNetTypes = []NetworkType{NetworkTypeUDP4, NetworkTypeUDP6, NetworkTypeTCP4, NetworkTypeTCP6}
 
 const vUfragSuffix, vPwdSuffix = "_ufrag", "_password_0123456789abcd"
 
@@ -99,14 +183,14 @@ func vUntok(s, suffix string) string {
 // ---- hub ----
 
 type vDgram struct {
-	from, to *net.UDPAddr
+	from, to net.Addr
 	data     []byte
 }
 
 type vEP struct {
 	h      *vHub
 	owner  *vAgentH
-	addr   *net.UDPAddr
+	addr   net.Addr
 	ch     chan vDgram
 	closed chan struct{}
 	once   sync.Once
@@ -127,12 +211,17 @@ func (c *vEP) WriteTo(b []byte, a net.Addr) (int, error) {
 		return 0, io.ErrClosedPipe
 	default:
 	}
-	ua, ok := a.(*net.UDPAddr)
-	if !ok {
+	if vNetAddrID(a) < 0 {
 		return 0, fmt.Errorf("bad addr")
 	}
+	// a socket only talks over its own transport: the real TCP conns resolve the destination by its String()
+	// (tcpPacketConn) or ignore it (activeTCPConn), whatever net.Addr type the candidate carries — srflx and
+	// relay candidates always carry a *net.UDPAddr, also on tcp4/tcp6
+	if vIsTCP(c.addr) != vIsTCP(a) {
+		a = vNetAddr(vNetOf(c.addr)/2*2+vNetOf(a)%2, vNetAddrID(a))
+	}
 	c.owner.mu.Lock()
-	c.owner.outbox = append(c.owner.outbox, vDgram{c.addr, ua, append([]byte{}, b...)})
+	c.owner.outbox = append(c.owner.outbox, vDgram{c.addr, a, append([]byte{}, b...)})
 	c.owner.mu.Unlock()
 	return len(b), nil
 }
@@ -140,8 +229,8 @@ func (c *vEP) Close() error {
 	c.once.Do(func() {
 		close(c.closed)
 		c.h.mu.Lock()
-		if c.h.eps[c.addr.String()] == c {
-			delete(c.h.eps, c.addr.String())
+		if c.h.eps[vKey(c.addr)] == c {
+			delete(c.h.eps, vKey(c.addr))
 		}
 		c.h.mu.Unlock()
 	})
@@ -247,6 +336,11 @@ func (s *vSession) newAgent(letter, cfg string) (*vAgentH, error) {
 	if _, ok := m["disc"]; ok {
 		c.DisconnectedTimeout = &disc
 	}
+	if m["tcp"] == "1" {
+		// ICE-TCP enabled: remote passive candidates get active local candidates per local interface address
+		// (none here: vNoNet has no interfaces)
+		c.NetworkTypes = append(c.NetworkTypes, NetworkTypeTCP4, NetworkTypeTCP6)
+	}
 	if c.Lite {
 		c.CandidateTypes = []CandidateType{CandidateTypeHost}
 	}
@@ -278,7 +372,7 @@ func (s *vSession) newAgent(letter, cfg string) (*vAgentH, error) {
 	}
 	if err := a.OnSelectedCandidatePairChange(func(l, r Candidate) {
 		h.mu.Lock()
-		h.sp = append(h.sp, fmt.Sprintf("%d>%d", vAddrID(l.addrPort()), vAddrID(r.addrPort())))
+		h.sp = append(h.sp, fmt.Sprintf("%d>%d", vCandID(l), vCandID(r)))
 		h.mu.Unlock()
 	}); err != nil {
 		return nil, err
@@ -288,7 +382,7 @@ func (s *vSession) newAgent(letter, cfg string) (*vAgentH, error) {
 		if c == nil {
 			h.ca = append(h.ca, "nil")
 		} else {
-			h.ca = append(h.ca, fmt.Sprint(vAddrID(c.addrPort())))
+			h.ca = append(h.ca, fmt.Sprint(vCandID(c)))
 		}
 		h.mu.Unlock()
 	}); err != nil {
@@ -310,8 +404,8 @@ func vLiteral(netw, addr, form int) string {
 	if form == 0 {
 		return ua.IP.String()
 	}
-	if netw == 1 {
-		return fmt.Sprintf("fd00:0:0:0:0:0:0:%x", addr/16+1)
+	if netw&1 == 1 {
+		return fmt.Sprintf("fd00:0:0:0:0:0:0:%x", (addr%vTCPBase)/16+1)
 	}
 	return "::ffff:" + ua.IP.String()
 }
@@ -325,12 +419,19 @@ func vForm(c Candidate) int {
 }
 
 func vNewCand(ty, netw, addr, prio int, rel string) (Candidate, error) {
-	return vNewCandForm(ty, netw, addr, prio, rel, 0)
+	return vNewCandFull(ty, netw, addr, prio, rel, 0, "-")
 }
 
-func vNewCandForm(ty, netw, addr, prio int, rel string, form int) (Candidate, error) {
+// vNewCandFull: candidate of type ty on network netw (0..3) at address id addr, signalled through literal form
+// `form`, carrying tcptype tt (a/p/s/-).  Only the host constructor takes a TCPType; for the other types the
+// tcptype is set the way a parsed SDP line sets it (the "tcptype" extension).
+func vNewCandFull(ty, netw, addr, prio int, rel string, form int, tt string) (Candidate, error) {
 	ua := vAddr(netw, addr)
 	lit := vLiteral(netw, addr, form)
+	nw := "udp"
+	if netw >= 2 {
+		nw = "tcp"
+	}
 	relAddr, relPort := "", 0
 	if rel != "-" {
 		if n, _ := strconv.Atoi(rel); n != 0 {
@@ -338,17 +439,29 @@ func vNewCandForm(ty, netw, addr, prio int, rel string, form int) (Candidate, er
 			relAddr, relPort = ra.IP.String(), ra.Port
 		}
 	}
+	var c Candidate
+	var err error
 	switch CandidateType(ty) {
 	case CandidateTypeHost:
-		return NewCandidateHost(&CandidateHostConfig{Network: "udp", Address: lit, Port: ua.Port, Component: 1, Priority: uint32(prio)})
+		return NewCandidateHost(&CandidateHostConfig{Network: nw, Address: lit, Port: ua.Port, Component: 1, Priority: uint32(prio), TCPType: vTT(tt)})
 	case CandidateTypeServerReflexive:
-		return NewCandidateServerReflexive(&CandidateServerReflexiveConfig{Network: "udp", Address: lit, Port: ua.Port, Component: 1, Priority: uint32(prio), RelAddr: relAddr, RelPort: relPort})
+		c, err = NewCandidateServerReflexive(&CandidateServerReflexiveConfig{Network: nw, Address: lit, Port: ua.Port, Component: 1, Priority: uint32(prio), RelAddr: relAddr, RelPort: relPort})
 	case CandidateTypePeerReflexive:
-		return NewCandidatePeerReflexive(&CandidatePeerReflexiveConfig{Network: "udp", Address: lit, Port: ua.Port, Component: 1, Priority: uint32(prio), RelAddr: relAddr, RelPort: relPort})
+		c, err = NewCandidatePeerReflexive(&CandidatePeerReflexiveConfig{Network: nw, Address: lit, Port: ua.Port, Component: 1, Priority: uint32(prio), RelAddr: relAddr, RelPort: relPort})
 	case CandidateTypeRelay:
-		return NewCandidateRelay(&CandidateRelayConfig{Network: "udp", Address: lit, Port: ua.Port, Component: 1, Priority: uint32(prio), RelAddr: relAddr, RelPort: relPort})
+		c, err = NewCandidateRelay(&CandidateRelayConfig{Network: nw, Address: lit, Port: ua.Port, Component: 1, Priority: uint32(prio), RelAddr: relAddr, RelPort: relPort})
+	default:
+		return nil, fmt.Errorf("bad candidate type")
 	}
-	return nil, fmt.Errorf("bad candidate type")
+	if err != nil {
+		return nil, err
+	}
+	if v := vTT(tt); v != TCPTypeUnspecified {
+		if err := c.AddExtension(CandidateExtension{Key: "tcptype", Value: v.String()}); err != nil {
+			return nil, err
+		}
+	}
+	return c, nil
 }
 
 // ---- STUN encode / decode to the canonical text ----
@@ -444,7 +557,7 @@ func (s *vSession) buildMsg(spec string) ([]byte, error) {
 }
 
 func (s *vSession) describe(h *vAgentH, d vDgram) string {
-	pre := fmt.Sprintf("%d>%d:", vUDPAddrID(d.from), vUDPAddrID(d.to))
+	pre := fmt.Sprintf("%d>%d:", vNetAddrID(d.from), vNetAddrID(d.to))
 	if !stun.IsMessage(d.data) {
 		return pre + fmt.Sprintf("DATA:%d", len(d.data))
 	}
@@ -580,16 +693,12 @@ func (s *vSession) digest(h *vAgentH) string {
 					dv = fmt.Sprint(*p.deferredNominationValue)
 				}
 				pairs = append(pairs, fmt.Sprintf("%d:%d>%d:%d:%s:n%dd%dv%s:c%d:p%d:q%d/%d/%d/%d:k%d/%d/%d/%d", p.id,
-					vAddrID(p.Local.addrPort()), vAddrID(p.Remote.addrPort()), p.Remote.Type(), stc, n, d, dv, p.bindingRequestCount, p.priority(),
+					vCandID(p.Local), vCandID(p.Remote), p.Remote.Type(), stc, n, d, dv, p.bindingRequestCount, p.priority(),
 					p.RequestsSent(), p.RequestsReceived(), p.ResponsesSent(), p.ResponsesReceived(),
 					p.PacketsSent(), p.PacketsReceived(), p.BytesSent(), p.BytesReceived()))
 			}
 		}
-		for _, nt := range []NetworkType{NetworkTypeUDP4, NetworkTypeUDP6} {
-			ni := 0
-			if nt == NetworkTypeUDP6 {
-				ni = 1
-			}
+		for ni, nt := range vNetTypes {
 			for _, c := range a.remoteCandidates[nt] {
 				rel := "-"
 				if ra := c.RelatedAddress(); ra != nil {
@@ -604,10 +713,10 @@ func (s *vSession) digest(h *vAgentH) string {
 				if f := vForm(c); f != 0 {
 					fm = fmt.Sprintf("~%d", f)
 				}
-				rem = append(rem, fmt.Sprintf("%d@%d.%d%s:p%d:r%s:lr%s", c.Type(), ni, vAddrID(c.addrPort()), fm, c.Priority(), rel, vMsSince(s.epoch, c.LastReceived())))
+				rem = append(rem, fmt.Sprintf("%d@%d.%d%s%s:p%d:r%s:lr%s", c.Type(), ni, vCandID(c), fm, vTTMark(c), c.Priority(), rel, vMsSince(s.epoch, c.LastReceived())))
 			}
 			for _, c := range a.localCandidates[nt] {
-				loc = append(loc, fmt.Sprintf("%d@%d.%d:p%d:ls%s", c.Type(), ni, vAddrID(c.addrPort()), c.Priority(), vMsSince(s.epoch, c.LastSent())))
+				loc = append(loc, fmt.Sprintf("%d@%d.%d%s:p%d:ls%s", c.Type(), ni, vCandID(c), vTTMark(c), c.Priority(), vMsSince(s.epoch, c.LastSent())))
 			}
 		}
 		pend = len(a.pendingBindingRequests)
@@ -669,7 +778,7 @@ func (s *vSession) render(res string) string {
 // emittedBy remembers which agent a local address belonged to (endpoints may be closed by now).
 var vAddrOwner = map[string]*vAgentH{}
 
-func (s *vSession) ownerOf(a *net.UDPAddr) *vAgentH { return vAddrOwner[a.String()] }
+func (s *vSession) ownerOf(a net.Addr) *vAgentH { return vAddrOwner[vKey(a)] }
 
 func (s *vSession) removeInflight(k int) (vDgram, bool) {
 	if k < 0 || k >= len(s.hub.inflight) {
@@ -682,14 +791,11 @@ func (s *vSession) removeInflight(k int) (vDgram, bool) {
 }
 
 func (s *vSession) handOver(d vDgram) {
-	src, dst := vUDPAddrID(d.from), vUDPAddrID(d.to)
+	src, dst := vNetAddrID(d.from), vNetAddrID(d.to)
 	if s.hub.blocked[[2]int{src, dst}] {
 		return
 	}
-	netw := 0
-	if d.to.IP.To4() == nil {
-		netw = 1
-	}
+	netw := vNetOf(d.to)
 	real := dst
 	for _, m := range s.hub.nat {
 		if m[1] == dst {
@@ -705,13 +811,13 @@ func (s *vSession) handOver(d vDgram) {
 		}
 	}
 	s.hub.mu.Lock()
-	ep := s.hub.eps[vAddr(netw, real).String()]
+	ep := s.hub.eps[vKey(vNetAddr(netw, real))]
 	s.hub.mu.Unlock()
 	if ep == nil || !ep.owner.started || ep.owner.closed {
 		return
 	}
 	select {
-	case ep.ch <- vDgram{vAddr(netw, seen), d.to, d.data}:
+	case ep.ch <- vDgram{vNetAddr(netw, seen), d.to, d.data}:
 	case <-ep.closed:
 	}
 }
@@ -723,11 +829,15 @@ func (s *vSession) exec(t []string) string {
 	switch t[0] {
 	case "addlocal":
 		h := ag(t[1])
-		c, err := vNewCand(vAtoi(t[2]), vAtoi(t[3]), vAtoi(t[4]), vAtoi(t[5]), t[6])
+		tt := "-"
+		if len(t) > 7 {
+			tt = t[7]
+		}
+		c, err := vNewCandFull(vAtoi(t[2]), vAtoi(t[3]), vAtoi(t[4]), vAtoi(t[5]), t[6], 0, tt)
 		if err != nil {
 			return s.render("err:cand")
 		}
-		ua := vAddr(vAtoi(t[3]), vAtoi(t[4]))
+		ua := vNetAddr(vAtoi(t[3]), vAtoi(t[4]))
 		if h.closed {
 			return s.render("err:closed")
 		}
@@ -743,9 +853,9 @@ func (s *vSession) exec(t []string) string {
 		})
 		if !dup {
 			s.hub.mu.Lock()
-			s.hub.eps[ua.String()] = ep
+			s.hub.eps[vKey(ua)] = ep
 			s.hub.mu.Unlock()
-			vAddrOwner[ua.String()] = h
+			vAddrOwner[vKey(ua)] = h
 		}
 		err = h.a.addCandidate(context.Background(), c, ep)
 		synctest.Wait()
@@ -762,7 +872,11 @@ func (s *vSession) exec(t []string) string {
 		if len(t) > 7 {
 			form = vAtoi(t[7])
 		}
-		c, err := vNewCandForm(vAtoi(t[2]), vAtoi(t[3]), vAtoi(t[4]), vAtoi(t[5]), t[6], form)
+		tt := "-"
+		if len(t) > 8 {
+			tt = t[8]
+		}
+		c, err := vNewCandFull(vAtoi(t[2]), vAtoi(t[3]), vAtoi(t[4]), vAtoi(t[5]), t[6], form, tt)
 		if err != nil {
 			return s.render("err:cand")
 		}
@@ -818,17 +932,13 @@ func (s *vSession) exec(t []string) string {
 		var ep *vEP
 		s.hub.mu.Lock()
 		for _, e := range s.hub.eps {
-			if e.owner == h && vUDPAddrID(e.addr) == la {
+			if e.owner == h && vNetAddrID(e.addr) == la {
 				ep = e
 			}
 		}
 		s.hub.mu.Unlock()
 		if ep != nil && h.started && !h.closed {
-			netw := 0
-			if ep.addr.IP.To4() == nil {
-				netw = 1
-			}
-			ep.ch <- vDgram{vAddr(netw, vAtoi(t[3])), ep.addr, raw}
+			ep.ch <- vDgram{vNetAddr(vNetOf(ep.addr), vAtoi(t[3])), ep.addr, raw}
 		}
 		synctest.Wait()
 		return s.render("-")
@@ -838,17 +948,13 @@ func (s *vSession) exec(t []string) string {
 		var ep *vEP
 		s.hub.mu.Lock()
 		for _, e := range s.hub.eps {
-			if e.owner == h && vUDPAddrID(e.addr) == la {
+			if e.owner == h && vNetAddrID(e.addr) == la {
 				ep = e
 			}
 		}
 		s.hub.mu.Unlock()
 		if ep != nil && h.started && !h.closed {
-			netw := 0
-			if ep.addr.IP.To4() == nil {
-				netw = 1
-			}
-			ep.ch <- vDgram{vAddr(netw, vAtoi(t[3])), ep.addr, vPayload(vAtoi(t[4]), t[5] == "1")}
+			ep.ch <- vDgram{vNetAddr(vNetOf(ep.addr), vAtoi(t[3])), ep.addr, vPayload(vAtoi(t[4]), t[5] == "1")}
 		}
 		synctest.Wait()
 		return s.render("-")
@@ -932,14 +1038,15 @@ func (s *vSession) exec(t []string) string {
 			h.a.nominationValueGenerator = func() uint32 { return v }
 			for _, cs := range h.a.localCandidates {
 				for _, c := range cs {
-					if vAddrID(c.addrPort()) == vAtoi(t[2]) && l == nil {
+					if vCandID(c) == vAtoi(t[2]) && l == nil {
 						l = c
 					}
 				}
 			}
 			var rs []Candidate
-			rs = append(rs, h.a.remoteCandidates[NetworkTypeUDP4]...)
-			rs = append(rs, h.a.remoteCandidates[NetworkTypeUDP6]...)
+			for _, nt := range vNetTypes {
+				rs = append(rs, h.a.remoteCandidates[nt]...)
+			}
 			if ri := vAtoi(t[3]); ri < len(rs) {
 				rc = rs[ri]
 			}
